@@ -162,11 +162,13 @@ static void voidcall_context_ep(int pfn0, int pfn1) {
 }
 
 #define myth_swap_context(from,to) { \
+    MYTH_VERIF_CTX_SAVE(from); \
     myth_context_switch_hook(to); \
     myth_swap_context_uc(from,to); \
 }
 
 #define myth_swap_context_withcall(from,to,fn,a1,a2,a3) { \
+    MYTH_VERIF_CTX_SAVE(from); \
     myth_context_switch_hook(to); \
     myth_swap_context_withcall_uc(from,to,fn,a1,a2,a3); \
 }
@@ -183,11 +185,13 @@ static void voidcall_context_ep(int pfn0, int pfn1) {
 }
 
 #define myth_swap_context(from,to) { \
+    MYTH_VERIF_CTX_SAVE(from); \
     myth_context_switch_hook(to); \
     myth_swap_context_i(from,to); \
 }
 
 #define myth_swap_context_withcall(from,to,fn,a1,a2,a3) { \
+    MYTH_VERIF_CTX_SAVE(from); \
     myth_context_switch_hook(to); \
     myth_swap_context_withcall_i(from,to,fn,a1,a2,a3); \
 }
@@ -204,11 +208,13 @@ static void voidcall_context_ep(int pfn0, int pfn1) {
 }
 
 #define myth_swap_context(from,to) { \
+    MYTH_VERIF_CTX_SAVE(from); \
     myth_context_switch_hook(to); \
     myth_swap_context_s(from,to); \
 }
 
 #define myth_swap_context_withcall(from,to,fn,a1,a2,a3) { \
+    MYTH_VERIF_CTX_SAVE(from); \
     myth_context_switch_hook(to); \
     myth_swap_context_withcall_s(from,to,fn,a1,a2,a3); \
 }
